@@ -66,7 +66,7 @@ func (c *ConnectorOrchestrator) Create(
 		// sentinel wrapped, ConduitError adds the code.
 		return nil, immutableProvisionedByConfigErr(fmt.Sprintf("cannot add a connector to the pipeline %q", pl.ID))
 	}
-	if pl.GetStatus() == pipeline.StatusRunning {
+	if isLive(pl) {
 		// Invariant: errors.Is(err, ErrPipelineRunning) still holds — sentinel
 		// wrapped, ConduitError adds the code.
 		return nil, pipelineRunningErr("cannot create connector: " + pipeline.ErrPipelineRunning.Error())
@@ -137,7 +137,7 @@ func (c *ConnectorOrchestrator) Delete(ctx context.Context, id string) error {
 	if err != nil {
 		return err
 	}
-	if pl.GetStatus() == pipeline.StatusRunning {
+	if isLive(pl) {
 		// Invariant: errors.Is(err, ErrPipelineRunning) still holds — sentinel
 		// wrapped, ConduitError adds the code.
 		return pipelineRunningErr(pipeline.ErrPipelineRunning.Error())
@@ -199,7 +199,7 @@ func (c *ConnectorOrchestrator) Update(ctx context.Context, id string, plugin st
 	if err != nil {
 		return nil, err
 	}
-	if pl.GetStatus() == pipeline.StatusRunning {
+	if isLive(pl) {
 		// Invariant: errors.Is(err, ErrPipelineRunning) still holds — sentinel
 		// wrapped, ConduitError adds the code.
 		return nil, pipelineRunningErr(pipeline.ErrPipelineRunning.Error())
